@@ -10,6 +10,7 @@ use crate::utils::ptr_util::{OwnedPtr, WeakPtr};
 
 pub unsafe fn patch_ast(compilation_state: &mut CompilationState) {
     let mut patcher = TypeRefPatcher {
+        lint_scope: None,
         type_ref_patches: Vec::new(),
         diagnostics: &mut compilation_state.diagnostics,
     };
@@ -20,6 +21,9 @@ pub unsafe fn patch_ast(compilation_state: &mut CompilationState) {
 }
 
 struct TypeRefPatcher<'a> {
+    /// The scoped identifier of the member or type-alias whose type is currently being resolved (if any).
+    /// Lints about that type are reported in this scope, so 'allow' attributes on the member itself are respected.
+    lint_scope: Option<String>,
     type_ref_patches: Vec<PatchKind>,
     diagnostics: &'a mut Diagnostics,
 }
@@ -47,6 +51,7 @@ impl TypeRefPatcher<'_> {
             let patch = match node {
                 Node::Field(field_ptr) => {
                     let type_ref = &field_ptr.borrow().data_type;
+                    self.lint_scope = Some(field_ptr.borrow().parser_scoped_identifier());
                     self.resolve_definition(type_ref, ast).map(PatchKind::FieldType)
                 }
                 Node::Interface(interface_ptr) => {
@@ -57,6 +62,7 @@ impl TypeRefPatcher<'_> {
                 }
                 Node::Parameter(parameter_ptr) => {
                     let type_ref = &parameter_ptr.borrow().data_type;
+                    self.lint_scope = Some(parameter_ptr.borrow().parser_scoped_identifier());
                     self.resolve_definition(type_ref, ast).map(PatchKind::ParameterType)
                 }
                 Node::Enum(enum_ptr) => enum_ptr
@@ -67,6 +73,7 @@ impl TypeRefPatcher<'_> {
                     .map(PatchKind::EnumUnderlyingType),
                 Node::TypeAlias(type_alias_ptr) => {
                     let type_ref = &type_alias_ptr.borrow().underlying;
+                    self.lint_scope = Some(type_alias_ptr.borrow().parser_scoped_identifier());
                     self.resolve_definition(type_ref, ast)
                         .map(PatchKind::TypeAliasUnderlyingType)
                 }
@@ -88,6 +95,7 @@ impl TypeRefPatcher<'_> {
                 }
                 _ => None,
             };
+            self.lint_scope = None;
             self.type_ref_patches.push(patch.unwrap_or_default());
         }
     }
@@ -257,7 +265,7 @@ impl TypeRefPatcher<'_> {
                 let reason = deprecated.reason.clone();
                 Diagnostic::new(Lint::Deprecated { identifier, reason })
                     .set_span(type_ref.span())
-                    .set_scope(type_ref.parser_scope())
+                    .set_scope(self.lint_scope.clone().unwrap_or_else(|| type_ref.parser_scope().to_owned()))
                     .add_note(
                         format!("{} was deprecated here:", entity.identifier()),
                         Some(entity.span()),
